@@ -2,7 +2,7 @@
 EXTENDS Cli, Json, IOUtils
 Log == ndJsonDeserialize(IOEnv.TRACE_FILE)
 VARIABLES l, st, bad, dead
-Judge(s, e) == CASE e.ev = "Format" -> FormatJudge(e) [] e.ev = "Error" -> ErrorJudge(e) [] OTHER -> "UnknownEvent"
+Judge(s, e) == CASE e.ev = "Format" -> FormatJudge(e) [] e.ev = "Error" -> ErrorJudge(e) [] e.ev = "Failure" -> FailureJudge(e) [] OTHER -> "UnknownEvent"
 Effect(s, e) == s
 Start(e) == [x |-> 0]
 TB == INSTANCE TraceBatch
